@@ -18,9 +18,19 @@ func scribble(b []byte) {
 	}
 }
 
+// Baseline is the rendering of every package-level variable of the three packages taken at process start, before
+// the prelude or any check has called into the library. Checks whose property says that the package keeps no
+// mutable global state compare against it at their end, so that state built lazily on first use (which the
+// prelude would otherwise hide) is seen as well.
+var Baseline string
+
 // HostileCaller runs the prelude. It never fails; its effects, if any, are what the checks detect.
 func HostileCaller() {
 	defer func() { _ = recover() }()
+
+	if Baseline == "" {
+		Baseline = secp256k1.VerifAllGlobals()
+	}
 
 	msg, dst := []byte("prelude message"), []byte("PRELUDE-V01-CS02-with-secp256k1_XMD:SHA-256_SSWU_RO_")
 	long := make([]byte, 300)
